@@ -16,6 +16,8 @@
 (* ORACLE (Orientation.tla, from the tool's documentation): the voxel at    *)
 (*   output <<x,y,z>>, channel k holds the pixel SrcIndex(code, insize,     *)
 (*   <<x,y,z>>) of channel k.                                               *)
+(* invalid = TRUE: the stack has one slice fewer than the info announces -   *)
+(*   only oracle:InvalidStackAccepted is judged.                            *)
 (* Clauses: oracle:ConversionRaised (the whole stack must be converted      *)
 (*   without error, whatever the slice count relative to the chunk depth),  *)
 (*   oracle:Unwritten, oracle:VoxelProvenance, oracle:ChannelOrder.         *)
@@ -81,8 +83,15 @@ ChannelClause(c) ==
         \/ Decode(c, c.stored[Flat(c, p, k)])[4] = k - 1
   THEN "ok" ELSE "oracle:ChannelOrder"
 
+\* an INVALID stack (fewer slices than the info announces) cannot be converted:
+\* the tool must report it (exception / non-zero status); returning normally
+\* would claim a volume that cannot be there
+InvalidClause(c) ==
+  IF c.run.outcome = "ok" /\ c.run.exit = 0 THEN "oracle:InvalidStackAccepted" ELSE "ok"
+
 Clause(c) ==
   IF ~Shape(c) THEN "machinery:CaseShape"
+  ELSE IF c.invalid THEN InvalidClause(c)
   ELSE FirstBad(<<RunClause(c), UnwrittenClause(c), ProvenanceClause(c), ChannelClause(c)>>)
 
 \* design prediction: with the reversed stop passed as a number the final
